@@ -72,6 +72,14 @@ static void on_point(int id, long a, long b) {
     }
   }
   if (D <= 0) return;
+  // inside the producer's critical sections: lingering here is harmless while the pool mutex is really held (a worker cannot be
+  // between its predicate and its blocking then); if it is not held, workers pass their predicate now and the state change and the
+  // notification that follow fall into their window
+  if (id == PT_POOL_STOP_LOCKED || id == PT_POOL_ADD_LOCKED) {
+    uint64_t h = mix(seed, ((uint64_t)id << 40) ^ k);
+    if (h % 3 != 0) sleep_us((long)((h >> 8) % (uint64_t)(D + 1)));
+    return;
+  }
   int bm = g_block_mode.load(std::memory_order_relaxed);
   if (id == PT_BLOCK_BUILT && bm) {
     long nb = std::max<long>(1, g_nblocks_hint.load());
